@@ -56,12 +56,25 @@ def bounded(tier, seed):
                 if again != out:
                     pv.append({"clause": "idempotent", "input": {"text": text, "options": o, "nested_list": False, "typography_prose": True},
                                "got": again[:600], "want": out[:600]})
+    # every marker word that may land at the start of a wrapped line, at the width that puts it there: the line start is
+    # protected on pass 1 exactly when pass 2 would otherwise read it as a block start
+    for m in ("-", "+", "*", ">", "#", "##", "###", "####", "#####", "######", "1.", "2)", "10.", "123456789.", "1234567890."):
+        for lead in ("aaaa bbbb cccc", "- aaaa bbbb cccc", "> aaaa bbbb"):
+            text = "%s %s dddd eeee\n" % (lead, m)
+            for w in range(len(lead) + 1, len(lead) + len(m) + 8):
+                for sm in (False, True):
+                    o = dict(width=w, semantic=sm)
+                    out = P.fmt(text, **o)
+                    pe += 1
+                    again = P.fmt(out, **o)
+                    if again != out:
+                        pv.append({"clause": "idempotent", "input": {"text": text, "options": o, "nested_list": False, "marker_word": m}, "got": again[:300], "want": out[:300]})
     for v in r1["violations"] + r2["violations"]:
         v["input"]["options"] = {k: (x.value if hasattr(x, "value") else x) for k, x in v["input"]["options"].items()}
     return {"evaluations": r1["evaluations"] + r2["evaluations"] + pe,
             "distinct_nontrivial": r1["distinct_nontrivial"] + r2["distinct_nontrivial"],
             "violations": r1["violations"] + r2["violations"] + pv, "samples": r1["samples"],
-            "rule": "seeded documents x widths {88,20,6,0} x both wrap modes x seeded typography/cleanup/list-spacing bits, plus "
+            "rule": "(also: 15 marker words behind three leads at every width that puts them at a line start) seeded documents x widths {88,20,6,0} x both wrap modes x seeded typography/cleanup/list-spacing bits, plus "
                     "plaintext mode, plus typography-rich prose (quotes, apostrophes, dot runs next to soft breaks) with smart quotes and ellipses on at 6 widths x both modes: second pass is byte-identical; distinct = distinct first-pass outputs",
             "exhaustive": False, "bound": "%d documents per mode" % n}
 
